@@ -323,6 +323,36 @@ func init() {
 	addMisuse("debugguard", "Map.GetRelation missing component", func(d *Drv, op *Op, h, _ ecs.Entity) {
 		d.Maps[u.RelIdx[op.N%3]].GetRelation(h)
 	})
+	// ... and for a missing component that is not a relation (op.Rem[0])
+	addMisuse("debugguard", "Unsafe.GetRelation missing non-relation component", func(d *Drv, op *Op, h, _ ecs.Entity) {
+		d.U.GetRelation(h, d.ID[op.Rem[0]])
+	})
+	addMisuse("debugguard", "Unsafe.GetRelationUnchecked missing non-relation component", func(d *Drv, op *Op, h, _ ecs.Entity) {
+		d.U.GetRelationUnchecked(h, d.ID[op.Rem[0]])
+	})
+	addMisuse("debugguard", "Unsafe.GetRelationUnchecked missing component", func(d *Drv, op *Op, h, _ ecs.Entity) {
+		d.U.GetRelationUnchecked(h, d.ID[u.RelIdx[op.N%3]])
+	})
+	addMisuse("debugguard", "Map.GetRelation missing non-relation component", func(d *Drv, op *Op, h, _ ecs.Entity) {
+		d.Maps[op.Rem[0]].GetRelation(h)
+	})
+	addMisuse("debugguard", "Map.GetRelationUnchecked missing non-relation component", func(d *Drv, op *Op, h, _ ecs.Entity) {
+		d.Maps[op.Rem[0]].GetRelationUnchecked(h)
+	})
+	addMisuse("debugguard", "Unsafe.GetUnchecked missing component", func(d *Drv, op *Op, h, _ ecs.Entity) {
+		sink = int64(uintptr(d.U.GetUnchecked(h, d.ID[op.Rem[0]])))
+	})
+	addMisuse("debugguard", "MapN.GetRelation missing component", func(d *Drv, op *Op, h, _ ecs.Entity) {
+		// a tuple none of whose components the entity has
+		mask := SetOf(op.Add...)
+		for ti := range typed.Tuples {
+			if !mask.Intersects(SetOf(typed.Tuples[ti].Comps...)) {
+				d.TMap(ti).GetRelation(h, op.N%len(typed.Tuples[ti].Comps))
+				return
+			}
+		}
+		panic(skipMisuse{})
+	})
 	// the same patterns for every generated query arity: op.Tuple is a typed tuple contained in the victim's composition
 	// (the result is non-empty), cached and uncached
 	derefable := func(op *Op) {
@@ -399,6 +429,64 @@ func init() {
 			for q.Next() {
 			}
 			q.Next()
+		})
+	}
+	// ---- queries created with an invalid relation argument (every arity, op.Tuple has a relation component):
+	// whether the call panics or yields an empty query is not specified for dead targets, but it must not leak
+	// a lock: the row closes whatever it got and the sweep after the op compares IsLocked with the model.
+	badQuery := func(name string, cached bool, mk func(d *Drv, op *Op, dead ecs.Entity) []ecs.Relation) {
+		addMisuse("badquery", name, func(d *Drv, op *Op, h, aux ecs.Entity) {
+			f := typed.Tuples[op.Tuple].NewFilter(d.W, false)
+			if cached {
+				f.Register()
+				defer f.Unregister()
+			}
+			rel := mk(d, op, aux)
+			func() {
+				defer func() { recover() }()
+				q := f.Query(rel)
+				q.Close()
+			}()
+			func() {
+				defer func() { recover() }()
+				_ = f.Batch(rel)
+			}()
+			panic("invalid relation argument handled") // counted as a rejected call; monitors run afterwards
+		})
+	}
+	relPos := func(op *Op) (int, int) {
+		for j, c := range typed.Tuples[op.Tuple].Comps {
+			if u.Types[c].IsRel {
+				return j, c
+			}
+		}
+		return 0, typed.Tuples[op.Tuple].Comps[0]
+	}
+	for _, cached := range []bool{false, true} {
+		n := map[bool]string{false: "", true: " (cached)"}[cached]
+		badQuery("FilterN.Query(dead target by type)"+n, cached, func(d *Drv, op *Op, dead ecs.Entity) []ecs.Relation {
+			_, c := relPos(op)
+			return []ecs.Relation{u.Types[c].Rel(dead)}
+		})
+		badQuery("FilterN.Query(dead target by index)"+n, cached, func(d *Drv, op *Op, dead ecs.Entity) []ecs.Relation {
+			j, _ := relPos(op)
+			return []ecs.Relation{ecs.RelIdx(j, dead)}
+		})
+		badQuery("FilterN.Query(relation not in filter)"+n, cached, func(d *Drv, op *Op, dead ecs.Entity) []ecs.Relation {
+			for _, c := range u.RelIdx {
+				if !SetOf(typed.Tuples[op.Tuple].Comps...).Has(c) {
+					return []ecs.Relation{u.Types[c].Rel(ecs.Entity{})}
+				}
+			}
+			return []ecs.Relation{ecs.RelID(d.ID[u.IP8], ecs.Entity{})}
+		})
+		badQuery("FilterN.Query(non-relation component)"+n, cached, func(d *Drv, op *Op, dead ecs.Entity) []ecs.Relation {
+			for j, c := range typed.Tuples[op.Tuple].Comps {
+				if !u.Types[c].IsRel {
+					return []ecs.Relation{ecs.RelIdx(j, ecs.Entity{})}
+				}
+			}
+			return []ecs.Relation{ecs.RelID(d.ID[u.IP8], ecs.Entity{})}
 		})
 	}
 	// ---- structural operations on a locked world (h is an alive entity; the generator only picks these while a query is open)
@@ -521,7 +609,7 @@ func (d *Drv) staleHandle(kind int, pick int) (ecs.Entity, bool) {
 // misuse executes a KMisuse op: op.Slot = table row, op.Sub = stale kind, op.E = victim (alive) entity, op.N = pick.
 func (d *Drv) misuse(op *Op) {
 	mc := &MisuseTable[op.Slot]
-	if (mc.Class == "debugguard" || mc.Class == "debugguardN") && !d.Headroom() {
+	if (mc.Class == "debugguard" || mc.Class == "debugguardN" || mc.Class == "badquery") && !d.Headroom() {
 		panic(skipMisuse{})
 	}
 	var h, aux ecs.Entity
@@ -532,7 +620,7 @@ func (d *Drv) misuse(op *Op) {
 		if !ok {
 			panic(skipMisuse{})
 		}
-	case "deadtarget", "deadtarget2":
+	case "deadtarget", "deadtarget2", "badquery":
 		var ok bool
 		kind := op.Sub
 		if kind == StaleZero {
